@@ -25,7 +25,7 @@ LEVEL = "fault_enumeration"
 RULE = ("part A enumerates (session state in {NOT SELECTED, SELECTED}) x (11 inbound streams: control and data frames, "
         "2- and 3-frame concatenations, an over-long length field) x (every byte offset 0..len) x (peer close, local "
         "disable, close+reconnect) x (3 segmentations of the prefix); part B samples real-socket scenarios (cut offsets, "
-        "disable during connect / after accept / with a half-received frame / after the peer closed, repeated cycles, "
+        "a first connection that ends before it was selected, disable during connect / after accept / with a half-received frame / after the peer closed, repeated cycles, "
         "also with a slow application 'disconnected' handler while the peer reconnects at once) with seeded yield injection, "
         "half of them with the disabling thread slowed to milliseconds per yield, plus forced schedules (disable() held at its "
         "stop-flag statement until the listen/connect thread has ended); distinct by (state, stream, offset, follow-up, segmentation | scenario, seed); "
